@@ -301,6 +301,114 @@ def run_selfremove(hist, k):
     return dict(viol=viol, obs=obs)
 
 
+class AddsAnother(Rec):
+    """a listener whose circuit_new / stream_new callback registers another listener"""
+
+    def __init__(self, state, other):
+        Rec.__init__(self)
+        self.state = state
+        self.other = other
+        self.added = False
+
+    def circuit_new(self, c):
+        Rec.circuit_new(self, c)
+        if not self.added:
+            self.added = True
+            self.state.add_circuit_listener(self.other)
+            self.state.add_stream_listener(self.other)
+
+    def stream_new(self, s):
+        Rec.stream_new(self, s)
+        if not self.added:
+            self.added = True
+            self.state.add_circuit_listener(self.other)
+            self.state.add_stream_listener(self.other)
+
+
+def run_add_during_new(hist):
+    """the second listener is registered from inside the first one's *_new notification of the first event: from the next
+    event on it hears exactly what every registered listener hears"""
+    viol = []
+    with World() as w:
+        impl = Impl(w)
+        late = Rec()
+        first = AddsAnother(impl.state, late)
+        impl.state.add_circuit_listener(first)
+        impl.state.add_stream_listener(first)
+        exp = expansion(hist)
+        for i, (label, ev, line) in enumerate(hist):
+            before = len(late.calls)
+            impl.event(ev, line)
+            got = late.calls[before:]
+            if i == 0:
+                continue          # whether it still hears the rest of the event it was added in is not fixed
+            if got != exp[i]:
+                kind = label.split('-', 1)[1].split('-')[0]
+                viol.append(('missing-notification' if len(got) < len(exp[i]) else 'extra-notification',
+                             kind + '/listener-added-during-new-notification',
+                             'event %d %r: a listener registered from inside another listener\'s *_new callback (event 0) heard %r, reference %r'
+                             % (i, '%s %s' % (ev, line), got, exp[i])))
+                break
+        errs = w.errors()
+        if errs:
+            viol.append(('logged-error', errs[0][1], '%r' % (errs[:1],)))
+        obs = tuple(late.calls)
+    return dict(viol=viol, obs=obs)
+
+
+class Raises(Rec):
+    """a faulty listener: every callback raises (after recording the call)"""
+
+    def __getattribute__(self, name):
+        attr = Rec.__getattribute__(self, name)
+        if not (name.startswith('circuit_') or name.startswith('stream_')):
+            return attr
+
+        def wrapped(*a, **kw):
+            attr(*a, **kw)
+            raise RuntimeError('listener raises in %s' % name)
+        return wrapped
+
+
+def run_raising(hist):
+    """a listener that raises must not keep the listeners registered after it from hearing the transition, nor a
+    when_built() / when_closed() wait from completing"""
+    viol = []
+    with World() as w:
+        impl = Impl(w)
+        bad = Raises()
+        rec = Rec()
+        for l in (bad, rec):
+            impl.state.add_circuit_listener(l)
+            impl.state.add_stream_listener(l)
+        exp = expansion(hist)
+        waits = None
+        i_built = first_index(hist, lambda l: l == 'C1-BUILT')
+        i_end = first_index(hist, lambda l: l.startswith('C1-') and ('CLOSED' in l or 'FAILED' in l))
+        for i, (label, ev, line) in enumerate(hist):
+            before = len(rec.calls)
+            impl.event(ev, line)
+            if waits is None and 1 in impl.state.circuits:
+                c = impl.state.circuits[1]
+                waits = (DRec(c.when_built()), DRec(c.when_closed()))
+            got = rec.calls[before:]
+            if got != exp[i]:
+                kind = label.split('-', 1)[1].split('-')[0]
+                viol.append(('missing-notification' if len(got) < len(exp[i]) else 'extra-notification',
+                             kind + '/after-a-listener-that-raises',
+                             'event %d %r: the listener registered before this one raised; this one heard %r, reference %r'
+                             % (i, '%s %s' % (ev, line), got, exp[i])))
+                break
+        if waits is not None and not viol:
+            wb, wc = waits
+            if i_built is not None and (i_end is None or i_built < i_end) and not wb.fires:
+                viol.append(('wait-outcome', 'built/want-ok-got-pending/a-listener-raises', 'the circuit reached BUILT, when_built() is pending'))
+            if i_end is not None and not wc.fires:
+                viol.append(('wait-outcome', 'closed/want-ok-got-pending/a-listener-raises', 'the circuit is gone, when_closed() is pending'))
+        obs = tuple(rec.calls)
+    return dict(viol=viol, obs=obs)
+
+
 def first_index(hist, pred):
     for i, (label, ev, line) in enumerate(hist):
         if pred(label):
@@ -475,6 +583,10 @@ def run_task(param, acc):
         labels = tuple(h[0] for h in hist)
         n = len(hist)
         if fam == 'listen':
+            r = run_raising(hist)
+            rec_exec(acc, ('raising', labels), r, dict(fam='raising', tier=acc.tier, h=hi_idx), cost=n * 10)
+            r = run_add_during_new(hist)
+            rec_exec(acc, ('addnew', labels), r, dict(fam='addnew', tier=acc.tier, h=hi_idx), cost=n * 10)
             total_calls = sum(len(c) for c in expansion(hist))
             for k in range(1, total_calls + 1):
                 r = run_selfremove(hist, k)
@@ -530,6 +642,10 @@ def replay(p):
         r = run_listen(hist, p['p_add'], p['p_rm'], False, p.get('rm_mode', 'global'), p.get('p_add2'))
         if p.get('p_add2') is not None or p.get('rm_mode') == 'object':
             r['viol'] = [(c, f + ('/registered-twice' if p.get('p_add2') is not None else '/unlisten-on-object'), d) for c, f, d in r['viol']]
+    elif p['fam'] == 'raising':
+        r = run_raising(hist)
+    elif p['fam'] == 'addnew':
+        r = run_add_during_new(hist)
     elif p['fam'] == 'selfremove':
         r = run_selfremove(hist, p['k'])
     elif p['fam'] == 'waits':
